@@ -56,6 +56,7 @@ def run(ctx):
         if not rr["ok"]:
             rp = dict(scns[rr["id"]])
             rp["seg"] = rr["variant"].split("/")[1]
+            rp["idx"] = rr["id"]          # prompt spellings and the segmentation seed derive from the position
             # outcomes depend on a timeout: a candidate must reproduce alone (at most 4 re-executions per signature)
             st = confirmed.setdefault(rr["sig"], {"ok": 0, "tries": 0})
             if st["ok"]:
